@@ -531,11 +531,21 @@ package rockredis
 // ---- string (KV) read-modify-write commands ----
 // ghost(kvexpired, db) / ghost(kvlen, db): whether the stored value of the key being written is expired (at the
 // log timestamp) and the length of its user data (0 when absent)
+//@ func (db *RockDB) getRawDBKVValue(ts int64, rawKey []byte, useLock bool) ([]byte, []byte, []byte, bool, error)
+//@   trusted reads the stored raw value through the engine and asks the expiry policy whether it is expired at ts
+//@   ensures result4 == nil ==> (result3 <==> ghost(kvexpired, db) == 1) && (result2 == nil || fresh(result2))
+//@ func (db *RockDB) decodeDBRawValueToRealValue(value []byte) ([]byte, *headerMetaValue, error)
+//@   trusted strips the modify time and decodes the value header (header codec: C10); stored values obey MaxValueSize
+//@   ensures result2 == nil ==> result1 != nil && fresh(result1) && sameSlice(result0, result1.UserData) && (result0 == nil || fresh(result0)) && len(result0) == ghost(kvlen, db) && len(result0) <= MaxValueSize
+// write preparation of a string key: on an expired value (or a full reset) the header is renewed - no expiry, new
+// version - so the rewritten value does not inherit the dead one's ttl
 //@ func (db *RockDB) prepareKVValueForWrite(ts int64, rawKey []byte, reset bool) (verKeyInfo, []byte, error)
-//@   trusted reads the stored value through the engine and the expiry policy; stored values obey MaxValueSize
-//@   ensures result2 == nil ==> result0.OldHeader != nil && fresh(result1) && len(result1) == ghost(kvlen, db) && len(result1) <= MaxValueSize
+//@   requires db != nil && db.expiration != nil
+//@   ensures result2 == nil ==> result0.OldHeader != nil && (result1 == nil || fresh(result1)) && len(result1) == ghost(kvlen, db) && len(result1) <= MaxValueSize
 //@   ensures result2 == nil ==> (result0.Expired <==> ghost(kvexpired, db) == 1)
+//@   ensures result2 == nil && (result0.Expired || reset) ==> result0.OldHeader.ExpireAt == 0 && result0.OldHeader.ValueVersion == ts
 //@   ensures result2 != nil ==> result1 == nil
+//@   modifies alloftype(headerMetaValue)
 //@ func (db *RockDB) encodeRealValueToDBRawValue(ts int64, oldh *headerMetaValue, value []byte) []byte
 //@   trusted header + user data + 8 byte modify time
 //@   requires oldh != nil
@@ -553,24 +563,28 @@ package rockredis
 // SETRANGE key offset value: the reply is the length of the resulting string, max(old length, offset+len(value));
 // an empty value changes nothing; a bad offset is an error, never a panic
 //@ func (db *RockDB) SetRange(ts int64, rawKey []byte, offset int, value []byte) (int64, error)
-//@   requires db != nil && db.wb != nil && ghost(wbputs, db.wb) == 0 && ghost(wbdels, db.wb) == 0 && ghost(kvlen, db) >= 0
+//@   requires db != nil && db.expiration != nil && db.wb != nil && ghost(wbputs, db.wb) == 0 && ghost(wbdels, db.wb) == 0 && ghost(kvlen, db) >= 0
+// a modifying command rewrites the value under the header it was read with: the key keeps its expiry
+//@   callassert encodeRealValueToDBRawValue arg2 == keyInfo.OldHeader && arg1 == ts
 //@   ensures result1 == nil && len(value) > 0 ==> result0 == max(kvLive(db), offset + len(value)) && offset >= 0
 //@   ensures result1 == nil && len(value) > 0 ==> ghost(commits, db.rockEng) == old(ghost(commits, db.rockEng)) + 1 && ghost(cputs, db.rockEng) == 1
 //@   ensures len(value) == 0 ==> result1 == nil && ghost(commits, db.rockEng) == old(ghost(commits, db.rockEng))
 //@   ensures len(value) == 0 ==> result0 == kvLive(db)
 //@   ensures offset < 0 && len(value) > 0 ==> result1 != nil
 //@   ensures ghost(wbputs, db.wb) == 0 && ghost(wbdels, db.wb) == 0
-//@   modifies db.isBatching, ghost(commits, _), ghost(cputs, _), ghost(cdels, _), ghost(wbputs, _), ghost(wbdels, _), ghost(tblcnt, db), ghost(wbver, _), ghost(cver, _)
+//@   modifies db.isBatching, ghost(commits, _), ghost(cputs, _), ghost(cdels, _), ghost(wbputs, _), ghost(wbdels, _), ghost(tblcnt, db), ghost(wbver, _), ghost(cver, _), alloftype(headerMetaValue)
 
 // APPEND key value: the reply is the new length = live old length + len(value)
 //@ func (db *RockDB) Append(ts int64, rawKey []byte, value []byte) (int64, error)
-//@   requires db != nil && db.wb != nil && ghost(wbputs, db.wb) == 0 && ghost(wbdels, db.wb) == 0 && ghost(kvlen, db) >= 0
+//@   requires db != nil && db.expiration != nil && db.wb != nil && ghost(wbputs, db.wb) == 0 && ghost(wbdels, db.wb) == 0 && ghost(kvlen, db) >= 0
+// a modifying command rewrites the value under the header it was read with: the key keeps its expiry
+//@   callassert encodeRealValueToDBRawValue arg2 == keyInfo.OldHeader && arg1 == ts
 //@   ensures result1 == nil && len(value) > 0 ==> result0 == kvLive(db) + len(value)
 //@   ensures result1 == nil && len(value) > 0 ==> ghost(commits, db.rockEng) == old(ghost(commits, db.rockEng)) + 1 && ghost(cputs, db.rockEng) == 1
 //@   ensures len(value) == 0 ==> result1 == nil && ghost(commits, db.rockEng) == old(ghost(commits, db.rockEng))
 //@   ensures len(value) == 0 ==> result0 == kvLive(db)
 //@   ensures ghost(wbputs, db.wb) == 0 && ghost(wbdels, db.wb) == 0
-//@   modifies db.isBatching, ghost(commits, _), ghost(cputs, _), ghost(cdels, _), ghost(wbputs, _), ghost(wbdels, _), ghost(tblcnt, db), ghost(wbver, _), ghost(cver, _)
+//@   modifies db.isBatching, ghost(commits, _), ghost(cputs, _), ghost(cdels, _), ghost(wbputs, _), ghost(wbdels, _), ghost(tblcnt, db), ghost(wbver, _), ghost(cver, _), alloftype(headerMetaValue)
 
 // GETRANGE normalisation (Redis): negative indexes count from the end, then both are clamped into [0, len-1]
 //@ func getRange(start int64, end int64, valLen int64) (int64, int64)
@@ -1000,19 +1014,19 @@ package rockredis
 //@   ensures ttl > 0 && result1 == nil ==> ghost(kvttlset, db) == ttl + ts / 1000000000
 //@   modifies ghost(kvttlset, db), ghost(expdels, _), ghost(wbputs, wb), ghost(wbdels, wb), ghost(wbver, wb)
 //@ func (db *RockDB) KVSetWithOpts(ts int64, rawKey []byte, value []byte, duration int64, createOnly bool, updateOnly bool) (int64, error)
-//@   requires db != nil && db.wb != nil && ghost(kvlen, db) >= 0
+//@   requires db != nil && db.expiration != nil && db.wb != nil && ghost(kvlen, db) >= 0
 //@   callassert Put arg2 != nil && len(arg2) >= 8
 //@   ensures result1 == nil && createOnly && ghost(kvlen, db) > 0 && ghost(kvexpired, db) == 0 ==> result0 == 0
 //@   ensures result1 == nil && updateOnly && ghost(kvexpired, db) == 1 ==> result0 == 0
 //@   ensures result0 == 0 && result1 == nil ==> ghost(wbputs, db.wb) == old(ghost(wbputs, db.wb)) && ghost(commits, db.rockEng) == old(ghost(commits, db.rockEng))
 //@   ensures result0 != 0 ==> result0 == 1
-//@   modifies ghost(wbputs, _), ghost(wbdels, _), ghost(wbver, _), ghost(commits, _), ghost(cputs, _), ghost(cdels, _), ghost(cver, _), ghost(tblcnt, db), ghost(kvttlset, db), ghost(expdels, _)
+//@   modifies ghost(wbputs, _), ghost(wbdels, _), ghost(wbver, _), ghost(commits, _), ghost(cputs, _), ghost(cdels, _), ghost(cver, _), ghost(tblcnt, db), ghost(kvttlset, db), ghost(expdels, _), alloftype(headerMetaValue)
 //@ func (db *RockDB) SetIfEQ(ts int64, rawKey []byte, oldV []byte, value []byte, duration int64) (int64, error)
-//@   requires db != nil && db.wb != nil && ghost(kvlen, db) >= 0
+//@   requires db != nil && db.expiration != nil && db.wb != nil && ghost(kvlen, db) >= 0
 //@   callassert Put arg2 != nil && len(arg2) >= 8
 //@   ensures result0 == 0 || result0 == 1
 //@   ensures result0 == 0 && result1 == nil ==> ghost(wbputs, db.wb) == old(ghost(wbputs, db.wb)) && ghost(commits, db.rockEng) == old(ghost(commits, db.rockEng))
-//@   modifies ghost(wbputs, _), ghost(wbdels, _), ghost(wbver, _), ghost(commits, _), ghost(cputs, _), ghost(cdels, _), ghost(cver, _), ghost(tblcnt, db), ghost(kvttlset, db), ghost(expdels, _)
+//@   modifies ghost(wbputs, _), ghost(wbdels, _), ghost(wbver, _), ghost(commits, _), ghost(cputs, _), ghost(cdels, _), ghost(cver, _), ghost(tblcnt, db), ghost(kvttlset, db), ghost(expdels, _), alloftype(headerMetaValue)
 
 // SET / SETEX / GETSET overwrite the whole value: the old expiry is dropped (ttl 0) or replaced by exactly the
 // requested one (absolute second = log time + duration); exactly one value is buffered
@@ -1048,10 +1062,12 @@ package rockredis
 //@   ensures fresh(result) && len(result) >= 1
 //@ func (db *RockDB) incr(ts int64, key []byte, delta int64) (int64, error)
 //@   trusted nooverflow INCR overflow wraps like the int64 it is stored in (Redis replies an error; noted, not raised)
-//@   requires db != nil && db.wb != nil && ghost(kvlen, db) >= 0 && ghost(wbputs, db.wb) == 0 && ghost(wbdels, db.wb) == 0
+//@   requires db != nil && db.expiration != nil && db.wb != nil && ghost(kvlen, db) >= 0 && ghost(wbputs, db.wb) == 0 && ghost(wbdels, db.wb) == 0
+// a modifying command rewrites the value under the header it was read with: the key keeps its expiry
+//@   callassert encodeRealValueToDBRawValue arg2 == keyInfo.OldHeader && arg1 == ts
 //@   ensures result1 == nil && ghost(kvexpired, db) == 1 ==> result0 == delta
 //@   ensures result1 == nil ==> ghost(commits, db.rockEng) == old(ghost(commits, db.rockEng)) + 1 && ghost(cputs, db.rockEng) >= 1
-//@   modifies db.isBatching, ghost(wbputs, _), ghost(wbdels, _), ghost(wbver, _), ghost(commits, _), ghost(cputs, _), ghost(cdels, _), ghost(cver, _), ghost(tblcnt, db)
+//@   modifies db.isBatching, ghost(wbputs, _), ghost(wbdels, _), ghost(wbver, _), ghost(commits, _), ghost(cputs, _), ghost(cdels, _), ghost(cver, _), ghost(tblcnt, db), alloftype(headerMetaValue)
 
 // EXPIRE family: the absolute expiry handed to the policy is log-time seconds + requested duration
 //@ interface (github.com/youzan/ZanRedisDB/rockredis.expiration).getRawValueForHeader func(e expiration, ts int64, dt byte, key []byte) ([]byte, error)
